@@ -50,6 +50,15 @@ def scalar_catalogue(tier, rnd):
                 cat.append((ptr, T('deref', 0, [t]), '*' + c))
             cat.append(('ptr', T('not', 0, [T('deref', 0, [t])]), '!*' + c))
             cat.append(('ptr', T('deref', 0, [T('not', 0, [t])]), '*!' + c))
+    # comparison with nullptr on raw and smart pointers (null-comparable arguments)
+    for ptr in ('ptr', 'uptr', 'sptr'):
+        cat.append((ptr, T('isnull'), 'trompeloeil::eq(nullptr)'))
+        cat.append((ptr, T('not', 0, [T('isnull')]), 'trompeloeil::ne(nullptr)'))
+        cat.append((ptr, T('not', 0, [T('isnull')]), '!trompeloeil::eq(nullptr)'))
+        cat.append((ptr, T('any_of', 0, [T('isnull'), T('deref', 0, [T('ge', 2)])]), 'trompeloeil::any_of(trompeloeil::eq(nullptr), *trompeloeil::ge(2))'))
+        cat.append((ptr, T('all_of', 0, [T('not', 0, [T('isnull')]), T('deref', 0, [T('lt', 2)])]), 'trompeloeil::all_of(trompeloeil::ne(nullptr), *trompeloeil::lt(2))'))
+    cat.append(('ptr', T('any'), 'ANY(int*)'))
+    cat.append(('ptr', T('any'), '_'))
     # set predicates with 0..3 operands
     for name in ('any_of', 'all_of', 'none_of'):
         cat.append(('int', T(name, 0, []), 'trompeloeil::%s()' % name))
